@@ -61,6 +61,10 @@ CHECKS = {
    technique="TLA+ spec DocTree.tla (JSON token handlers building the typed tree; marshal2 conversion back) checked by TLC for ToTokens(Build(v)) = v on every small value; cases replayed on the real reader, J2NodeToInterface/JSONify2 and the copy function; random deeper values re-built by TLC (Trace_DocTree.tla); XML trees compared with an independent DOM",
    text="TLC checks the round trip of the reader/marshal model for every JSON value of depth 1 over keys {'',a,b} and six scalars; each value is replayed on the real JSONStreamReader, both converters and the copy custom_func through a full Transform, in a plain and a payload-substituted rendering, against encoding/json's decoding; random values up to depth 4 are rebuilt by TLC from the logged token stream. XML fidelity is decided by comparing the node tree of hand-written and random documents with a DOM built independently from encoding/xml events.",
    note="Trusted: TLC, encoding/json and encoding/xml as references, the renderers. The XML half is a differential exploration (no TLA+ model of XML events)."),
+ "C11": dict(cat="model_checking", design="5/C11",
+   technique="TLA+ spec Nav.tla: idr.navigator and the reference DOM navigator as two transition systems over abstract XML documents; TLC checks a one-step bisimulation from every position for every small document; every (position, move) replayed on both real navigators; expression-level differential traces validated by TLC",
+   text="TLC checks for every document with up to 4 (thorough 5) nodes and 0..2 attributes per element that all six move methods of the two navigator models agree from every position (document, element, text, attribute); each of these steps is replayed on idr's navigator and on xmlquery's, so both models are bound to code. Random expressions over the engine's axes, node tests, positional/string predicates and functions are evaluated from the document and inner nodes by idr.QueryIter and by the reference DOM and the result lists compared.",
+   note="Trusted: TLC, antchfx/xpath itself (shared by both sides), label-based position identification. Reference quirks (text Value(), attribute NamespaceURL, DeclarationNode) are excluded from observations."),
 }
 
 def main():
